@@ -39,7 +39,11 @@ class Undecided(Exception):
 
 
 TIER = os.environ.get('VERIF_TIER', 'quick')
-QUERY_TIMEOUT_MS = 10000 if TIER == 'quick' else 60000
+# per-query budgets (wall clock, so they must leave room for a machine on which every core is busy): the first z3 attempt is
+# cut short - a query z3 answers at all it answers in well under a second when the machine is idle - and the later stages
+# of the portfolio (_solve) get the full budget
+QUERY_TIMEOUT_MS = 20000 if TIER == 'quick' else 60000
+FIRST_TIMEOUT_MS = 5000 if TIER == 'quick' else 30000
 BRANCH_TIMEOUT_MS = 2000
 MAX_PATHS = int(os.environ.get('PYVC_MAX_PATHS', '6000'))
 CVC5 = '/usr/bin/cvc5'
@@ -55,29 +59,156 @@ def _mk_solver(timeout_ms):
     return s
 
 
-def _cvc5_check(smt2, timeout_ms):
-    """Run the cvc5 CLI on an SMT-LIB2 benchmark produced by z3; returns 'sat'/'unsat'/'unknown'."""
-    txt = '(set-logic ALL)\n' + smt2
-    if '(check-sat)' not in txt:
-        txt += '\n(check-sat)\n'
-    fd, path = tempfile.mkstemp(suffix='.smt2', dir=os.environ.get('VERIF_SCRATCH', '/dev/shm'))
-    try:
-        with os.fdopen(fd, 'w') as f:
-            f.write(txt)
+def _cvc5_export(smt2):
+    """z3's SMT-LIB export made readable for cvc5 1.0.3.
+    z3's printer emits two internal symbols after simplification of seq.nth:  seq.nth_i (the in-range element) and
+    seq.nth_u (the unspecified out-of-range value).  cvc5 knows neither and used to reject the whole benchmark (a parse
+    error, i.e. a silent `unknown`).  seq.nth_i is rendered as cvc5's seq.nth (equal in range, an unconstrained function of
+    its arguments out of range in both solvers) and seq.nth_u is declared as an uninterpreted function - every z3 model of
+    the original is a cvc5 model of the export, so cvc5's `unsat` carries over."""
+    txt = smt2
+    decls = ''
+    if 'seq.nth_u' in txt:
+        # one declaration per element sort in use; only Int-element sequences occur in pyvc's encodings
+        decls += '(declare-fun seq.nth_u ((Seq Int) Int) Int)\n'
+    txt = txt.replace('seq.nth_i', 'seq.nth')
+    # z3 5.1 prints the SMT-LIB 2.7 names of the int/bit-vector conversions; cvc5 1.0.3 knows the older ones (same meaning:
+    # unsigned value of a bit-vector, integer modulo 2^N as a bit-vector)
+    txt = txt.replace('(_ int_to_bv ', '(_ int2bv ').replace('(ubv_to_int ', '(bv2nat ')
+    return '(set-logic ALL)\n' + decls + txt
+
+
+class _Cvc5Job(object):
+    """The cvc5 CLI on an SMT-LIB2 benchmark produced by z3, started in the background; result() waits for it (at most its
+    own time limit) and returns ('sat'|'unsat'|'unknown', detail)."""
+
+    def __init__(self, smt2, timeout_ms):
+        txt = _cvc5_export(smt2)
+        if '(check-sat)' not in txt:
+            txt += '\n(check-sat)\n'
+        self.timeout_ms = timeout_ms
+        self.proc = None
+        self.path = None
         try:
-            p = subprocess.run([CVC5, '--lang=smt2', '--strings-exp', '--tlimit=%d' % timeout_ms, path],
-                               capture_output=True, text=True, timeout=timeout_ms / 1000.0 + 5)
+            fd, self.path = tempfile.mkstemp(suffix='.smt2', dir=os.environ.get('VERIF_SCRATCH', '/dev/shm'))
+            with os.fdopen(fd, 'w') as f:
+                f.write(txt)
+            self.proc = subprocess.Popen([CVC5, '--lang=smt2', '--strings-exp', '--tlimit=%d' % timeout_ms, self.path],
+                                         stdout=subprocess.PIPE, stderr=subprocess.PIPE, text=True)
+            self.err = ''
+        except OSError as e:
+            self.err = 'cvc5: not started (%s)' % e
+            self._cleanup()
+
+    def _cleanup(self):
+        if self.path:
+            try:
+                os.unlink(self.path)
+            except OSError:
+                pass
+            self.path = None
+
+    def result(self):
+        if self.proc is None:
+            return 'unknown', self.err
+        try:
+            out, err = self.proc.communicate(timeout=self.timeout_ms / 1000.0 + 5)
         except subprocess.TimeoutExpired:
-            return 'unknown'
-        out = (p.stdout or '').strip().splitlines()
-        if out and out[0] in ('sat', 'unsat'):
-            return out[0]
-        return 'unknown'
+            self.cancel()
+            return 'unknown', 'cvc5: timeout'
+        self.proc = None
+        self._cleanup()
+        lines = (out or '').strip().splitlines()
+        if lines and lines[0] in ('sat', 'unsat'):
+            return lines[0], ''
+        return 'unknown', 'cvc5: ' + (((out or '') + (err or '')).strip().replace('\n', ' ')[:200] or 'no answer within its time limit')
+
+    def cancel(self):
+        if self.proc is not None:
+            try:
+                self.proc.kill()
+                self.proc.communicate()
+            except Exception:
+                pass
+            self.proc = None
+        self._cleanup()
+
+
+def _cvc5_check(smt2, timeout_ms):
+    return _Cvc5Job(smt2, timeout_ms).result()
+
+
+RESEEDS = 2
+
+
+def _z3_reseeded(assertions, k, want_model, smt2):
+    """z3 on a copy of the assertions translated into a fresh context (new term numbering) with a different seed."""
+    seed0 = int(os.environ.get('VERIF_SEED', '0') or 0)
+    c2 = z3.Context()
+    s2 = z3.Solver(ctx=c2)
+    s2.set('timeout', QUERY_TIMEOUT_MS)
+    s2.set('random_seed', (seed0 + 7919 * k) % (2 ** 31))
+    for c in assertions:
+        s2.add(c.translate(c2))
+    r3 = s2.check()
+    if r3 == z3.unsat:
+        return {'status': 'unsat', 'backend': 'z3-reseeded'}
+    if r3 == z3.sat:
+        m = s2.model()
+        return {'status': 'sat', 'backend': 'z3-reseeded',
+                'model': want_model(m, lambda t: t.translate(c2)) if want_model else {},
+                'smt2': smt2, 'model_text': str(m)[:4000]}
+    return {'status': 'unknown', 'reason': 'z3-reseeded#%d: %s' % (k, s2.reason_unknown())}
+
+
+def _solve(assertions, want_model=None):
+    """Decide the conjunction of `assertions` with a portfolio, stopping at the first definite answer:
+         1. z3 in process (seed VERIF_SEED; FIRST_TIMEOUT_MS: a query z3 has lost its way on is better handed on early),
+         2. the cvc5 CLI on z3's SMT-LIB export (started in the background, full budget), while
+         3. z3 runs again on a copy of the assertions translated into a fresh context with another seed (full budget);
+         4. if both are still undecided, one more reseeded z3 run.
+    z3's nonlinear-integer and sequence procedures are heuristic: the same valid query is proved in 0.1 s or runs past any
+    time limit depending on the seed, term numbering and machine load (observed on the varint loop-invariant step), and
+    cvc5 is quick on some of those and slow on others.  Any back end's `unsat` is a proof and any back end's `sat` comes
+    with a model that is replayed natively before it is believed, so trying more than one is sound in both directions;
+    `unknown` is returned only when all of them give up.
+    Returns a dict: status, backend, reason, smt2, and for sat: model (via want_model(model, translate)) and model_text."""
+    s = _mk_solver(FIRST_TIMEOUT_MS)
+    for c in assertions:
+        s.add(c)
+    r = s.check()
+    if r == z3.unsat:
+        return {'status': 'unsat', 'backend': 'z3'}
+    smt2 = s.to_smt2()
+    if r == z3.sat:
+        m = s.model()
+        return {'status': 'sat', 'backend': 'z3', 'model': want_model(m, lambda t: t) if want_model else {},
+                'smt2': smt2, 'model_text': str(m)[:4000]}
+    reasons = ['z3: ' + s.reason_unknown()]
+    if os.environ.get('PYVC_DUMP_UNKNOWN'):
+        with open(os.path.join(os.environ['PYVC_DUMP_UNKNOWN'], 'unk_%d_%d.smt2' % (os.getpid(), int(time.time() * 1000))), 'w') as f:
+            f.write(smt2)
+    job = _Cvc5Job(smt2, QUERY_TIMEOUT_MS)
+    try:
+        r3 = _z3_reseeded(assertions, 1, want_model, smt2)
+        if r3['status'] != 'unknown':
+            return r3
+        reasons.append(r3['reason'])
+        r2, why = job.result()
     finally:
-        try:
-            os.unlink(path)
-        except OSError:
-            pass
+        job.cancel()
+    if r2 == 'unsat':
+        return {'status': 'unsat', 'backend': 'cvc5'}
+    reasons.append(why or 'cvc5: sat (no model extracted)')
+    for k in range(2, RESEEDS + 1):
+        r3 = _z3_reseeded(assertions, k, want_model, smt2)
+        if r3['status'] != 'unknown':
+            return r3
+        reasons.append(r3['reason'])
+    if r2 == 'sat':
+        return {'status': 'sat', 'backend': 'cvc5', 'model': {}, 'smt2': smt2,
+                'model_text': '(cvc5 reported sat; no model extracted)'}
+    return {'status': 'unknown', 'backend': 'z3+cvc5', 'reason': '; '.join(reasons), 'smt2': smt2}
 
 
 class Ctx(object):
@@ -180,44 +311,35 @@ class Ctx(object):
                 # assume it so that later obligations are reported independently
                 self.assume(condt, silent=False)
 
+    def lemma(self, name, formula):
+        """A *checked* lemma: `formula` is discharged as its own obligation in the EMPTY context (so it is valid for all
+        values of its free symbols, independent of this path) and only then added to the path condition.  Used to hand
+        the solver a nonlinear fact it finds reliably in isolation but only erratically inside a large query."""
+        t0 = time.time()
+        ft = formula.t if isinstance(formula, SBool) else formula
+        res = _solve([z3.Not(ft)])
+        res.update({'name': name, 'time': time.time() - t0, 'expect_fail': False,
+                    'decisions': list(self.decisions[:self.pos]), 'note': 'checked lemma (empty context)'})
+        self.run.record(res)
+        if res['status'] == 'unsat':
+            self.assume(ft, silent=True)
+
     def _discharge(self, condt):
         neg = z3.simplify(z3.Not(condt))
         if z3.is_false(neg):
             return {'status': 'unsat', 'backend': 'simplify'}
-        s = _mk_solver(QUERY_TIMEOUT_MS)
-        for c in self.pc:
-            s.add(c)
-        s.add(neg)
-        r = s.check()
-        if r == z3.unsat:
-            return {'status': 'unsat', 'backend': 'z3'}
-        smt2 = s.to_smt2()
-        if r == z3.sat:
-            m = s.model()
-            return {'status': 'sat', 'backend': 'z3', 'model': self._model_inputs(m),
-                    'smt2': smt2, 'model_text': str(m)[:4000]}
-        # unknown: try the incremental-free tactic variants, then cvc5
-        r2 = _cvc5_check(smt2, QUERY_TIMEOUT_MS)
-        if r2 == 'unsat':
-            return {'status': 'unsat', 'backend': 'cvc5'}
-        if r2 == 'sat':
-            return {'status': 'sat', 'backend': 'cvc5', 'model': {}, 'smt2': smt2,
-                    'model_text': '(cvc5 reported sat; no model extracted)'}
-        return {'status': 'unknown', 'backend': 'z3+cvc5', 'reason': s.reason_unknown(), 'smt2': smt2}
+        return _solve(list(self.pc) + [neg], want_model=self._model_inputs)
 
     def cover(self, name):
         """Vacuity guard: this point must be reachable with a satisfiable path condition."""
-        s = _mk_solver(QUERY_TIMEOUT_MS)
-        for c in self.pc:
-            s.add(c)
-        r = s.check()
-        self.run.record_cover(name, r == z3.sat, str(r))
+        r = _solve(list(self.pc))
+        self.run.record_cover(name, r['status'] == 'sat', r['status'])
 
-    def _model_inputs(self, m):
+    def _model_inputs(self, m, tr=lambda t: t):
         out = {}
         for name, kind, term in self.inputs:
             try:
-                v = m.eval(term, model_completion=True)
+                v = m.eval(tr(term), model_completion=True)
                 out[name] = model_value(kind, v)
             except Exception as e:   # pragma: no cover
                 out[name] = {'error': repr(e)}
